@@ -82,13 +82,15 @@ def replaceEscaping : Str → Str := replaceEscapingWith [('\\', '\\'), ('n', '\
 /-- `_replace_help_escaping` (HELP_ESCAPING_RE) -/
 def replaceHelpEscaping : Str → Str := replaceEscapingWith [('\\', '\\'), ('n', '\n')]
 
-/-- `_unquote_unescape(text)` → (text, quoted).  `text[0]` on an all-whitespace argument raises IndexError. -/
+/-- `_unquote_unescape(text)` → (text, quoted).  The text is stripped first and an empty result is returned as it is
+(before commit e804336 the emptiness test came before the strip and `text[0]` raised IndexError on an all-whitespace
+argument). -/
 def unquoteUnescape (text : Str) : PyM (Str × Bool) :=
-  if text.isEmpty then .ok (text, false)
+  let t := strip text
+  if t.isEmpty then .ok (t, false)
   else
-    let t := strip text
     match t with
-    | [] => .error .indexError
+    | [] => .ok (t, false)
     | '"' :: _ =>
       if t.length == 1 || t.getLast? != some '"' then .error .valueError
       else
